@@ -33,7 +33,14 @@ def gen(rng, tier):
         focus["fix"] = True
     if rng.random() < 0.5:
         focus["res_abs"] = True
+    pairs_restart = rng.random() < 0.12
+    if pairs_restart:
+        # facility-needing tasks that hold several worker-facility pairs, paused in the middle and taken through a file
+        focus.update(comps=True, facilities=True, contention="low", solo=False, fix=False, single_task_comps=True)
     spec = C.maybe_from_json(rng, C.maybe_org_edit(rng, C.maybe_history(rng, C.forward_spec(rng, tier, focus), 0.3, reload_prob=0.3), 0.35))
+    if pairs_restart and not (spec.get("history") or {}).get("org_edit"):
+        spec.pop("from_json", None)
+        spec["history"] = {"k": rng.randint(1, 6), "state": False, "log": rng.random() < 0.5, "reload": True}
     if rng.random() < 0.1:
         spec["cfg"]["unit_time"] = rng.choice([2, 3])  # the clock advances by 2 or 3 per step; absence lists name times
     if rng.random() < 0.08 and not (spec.get("history") or {}).get("org_edit"):
